@@ -51,7 +51,10 @@ PROPS = {
                       "theorems; they are additionally judged on every run by Oracle.C11b on the implementation's output.",
     },
     "C06": {
-    "generators": [("c06a", 4000, 120000), ("c06idx", 6000, 60000), ("c06pc", 3000, 60000), ("c04build", 1600, 24000)],
+    "generators": [("c06a", 4000, 120000), ("c06idx", 6000, 60000), ("c06pc", 3000, 60000), ("c04build", 1600, 24000),
+                   # every evaluation path of Loop / Polygon / ContainsPointQuery containment vs the exact parity (the index path of
+                   # Polygon.ContainsCell / IntersectsCell goes through Polygon.iteratorContainsPoint): shared with C04
+                   ("c04", 2400, 24000)],
     "translators": ["translator_c06", "translator_c08", "translator_c04"],
     "modules": ["S2.IndexBuild", "S2.Generated.BuildFns", "S2.Generated.PaddedCellFns", "S2.Generated.ClipFns", "S2.Generated.LocateFns", "S2.ShapesBase", "S2.ShapesLoops", "S2.Shapes", "S2.Generated.ShapeAccessors", "S2.Locate", "S2.PaddedCellM", "S2.Hilbert", "S2.STUV", "S2.CellM", "S2.CellID", "S2.Contain", "S2.Pred", "S2.Exact"],
     "rule": "shapes: every Shape type (Loop incl. empty/full/0/2-vertex, Polyline, LaxPolyline, PointVector, LaxLoop (both "
